@@ -73,6 +73,7 @@ func inBounds(i int64, n int) bool { return 0 <= wrapIndex(i, n) && wrapIndex(i,
     ensures @list-bounds (*base).Kind() == ListValueKind && !inBounds((*index).(ValueInt).Inner, len(*(*base).(ValueList).Values)) ==> ret1 != nil
     ensures @string-bounds (*base).Kind() == StringValueKind && !inBounds((*index).(ValueInt).Inner, len((*base).(ValueString).Inner)) ==> ret1 != nil
     ensures @string-element ret1 == nil && (*base).Kind() == StringValueKind ==> inBounds((*index).(ValueInt).Inner, len((*base).(ValueString).Inner))
+    ensures @string-element-value ret1 == nil && (*base).Kind() == StringValueKind ==> (*ret0).Kind() == StringValueKind && (*ret0).(ValueString).Inner == string((*base).(ValueString).Inner[wrapIndex((*index).(ValueInt).Inner, len((*base).(ValueString).Inner))])
     ensures @result ret1 == nil ==> ret0 != nil
 @*/
 
